@@ -66,6 +66,23 @@ func (e ExitReason) GetHostCallID() uint8 {
 	return uint8(e)
 }
 
+// hostCallIndexMask covers the 56 payload bits below the reason-type byte.
+const hostCallIndexMask = uint64(1)<<56 - 1
+
+// hostCallExit builds the host-call exit for an ecalli immediate. The immediate is a full 64-bit
+// value (sign-extended), which must not spill into the reason-type byte: identifiers that do not
+// fit the payload are unknown to every dispatcher and are reported as the largest payload value,
+// which is unknown as well.
+func hostCallExit(id uint64) ExitReason {
+	return ExitHostCall | ExitReason(min(id, hostCallIndexMask))
+}
+
+// GetHostCallIndex returns the complete host-call identifier carried by a host-call exit
+// (GetHostCallID only returns its low byte).
+func (e ExitReason) GetHostCallIndex() uint64 {
+	return uint64(e) & hostCallIndexMask
+}
+
 func (e ExitReason) GetPageFaultAddress() uint32 {
 	return uint32(e)
 }
